@@ -42,16 +42,19 @@ MUTANTS = {
 
 
 def main():
-    args = [a for a in sys.argv[1:] if not a.startswith('--')]
-    pids = args or ['C01', 'C02', 'C03']
     seeds = ['1']
     only = None
-    for i, a in enumerate(sys.argv):
-        if a == '--seeds':
-            seeds = sys.argv[i + 1].split(',')
-        if a == '--only':
-            only = sys.argv[i + 1]
-    pids = [p for p in pids if p not in seeds and p != only]
+    pids = []
+    argv = sys.argv[1:]
+    i = 0
+    while i < len(argv):
+        if argv[i] == '--seeds':
+            seeds = argv[i + 1].split(','); i += 2
+        elif argv[i] == '--only':
+            only = argv[i + 1]; i += 2
+        else:
+            pids.append(argv[i]); i += 1
+    pids = pids or ['C01', 'C02', 'C03']
     results = {}
     for name, (rel, old, new) in MUTANTS.items():
         if only and only not in name:
@@ -86,6 +89,10 @@ def main():
             sys.stdout.flush()
         finally:
             shutil.rmtree(d, ignore_errors=True)
+    print('--- matrix (C = caught with a concrete replay, b = broken obligation only, . = missed)')
+    for name, row in results.items():
+        cells = ' '.join(f"{k}:{'C' if str(v).startswith('CAUGHT') else 'b' if str(v).startswith('broken') else '.'}" for k, v in row.items())
+        print(f'{name[:52]:52s} {cells}')
     caught = sum(1 for r in results.values() if any(str(v).startswith('CAUGHT') for v in r.values()))
     print(f'{caught}/{len(results)} mutants caught by at least one of the checks')
 
